@@ -6,11 +6,13 @@ package c17
 // right transaction IDs and poison addresses.
 
 import (
+	"encoding/json"
 	"errors"
 	"fmt"
 	"net"
 	"net/netip"
 	"os"
+	"path/filepath"
 	"strconv"
 	"strings"
 	"sync"
@@ -59,6 +61,7 @@ type udpLookup struct {
 
 type udpPlan struct {
 	UseTCP bool
+	Name   string // name looked up ("" = udp.verif.test)
 	L      [2]udpLookup
 }
 
@@ -72,14 +75,15 @@ type udpServer struct {
 	name           string
 	scripts        []udpLookup
 
-	mu      sync.Mutex
-	ids     map[int]uint16
-	ports   []uint16      // source ports in order of first appearance = lookups that reached upstream
-	queries []map[int]int // per lookup: family -> number of queries seen
-	played  []bool
-	badQ    string
-	syncCh  chan struct{}
-	done    chan struct{}
+	mu       sync.Mutex
+	ids      map[int]uint16
+	ports    []uint16      // source ports in order of first appearance = lookups that reached upstream
+	queries  []map[int]int // per lookup: family -> number of queries seen
+	played   []bool
+	badQ     string
+	oversize int
+	syncCh   chan struct{}
+	done     chan struct{}
 }
 
 func listenLoopback(ip netip.Addr, port uint16) (*net.UDPConn, error) {
@@ -170,7 +174,7 @@ func (s *udpServer) run() {
 		}
 		q, err := parseQuery(buf[:n])
 		s.mu.Lock()
-		if err != nil || !strings.EqualFold(q.Name, s.name) || q.QR || q.Class != 1 || (q.Type != tA && q.Type != tAAAA) {
+		if err != nil || !queryOK(&q, s.name) {
 			s.badQ = fmt.Sprintf("query=%+v err=%v raw=%x", q, err, buf[:n])
 			s.mu.Unlock()
 			continue
@@ -222,6 +226,11 @@ func (s *udpServer) run() {
 				case fromForeignIP:
 					sock = s.fip
 				}
+				if len(b) > 1232 { // would not fit the size the resolver advertises: generator error
+					s.mu.Lock()
+					s.oversize = len(b)
+					s.mu.Unlock()
+				}
 				sock.WriteToUDPAddrPort(b, dst)
 			}
 		}
@@ -245,6 +254,16 @@ func genUDPMsg(rt *rapid.T, fam int, ag *addrGen, poison bool) wmsg {
 		m.Authority[i].SOAMin = base
 	}
 	return m
+}
+
+// compressOwners makes every record use a compression pointer to the question name.
+func compressOwners(m *wmsg) {
+	for i := range m.Answers {
+		m.Answers[i].Full = false
+	}
+	for i := range m.Authority {
+		m.Authority[i].Full = false
+	}
 }
 
 // crossClean gives the other-family records of a message that the server itself sends (with one
@@ -323,6 +342,7 @@ func genUDPLookup(rt *rapid.T, ag *addrGen) udpLookup {
 			}
 		}
 		d.It.DelayMs = 0
+		compressOwners(&d.It.Msg) // keeps every datagram below the advertised 1232 bytes for the longest names too
 		l.Datagrams = append(l.Datagrams, d)
 	}
 	// Make sure the UDP phase ends promptly even for a resolver that skips every unusable
@@ -347,10 +367,13 @@ func genUDPLookup(rt *rapid.T, ag *addrGen) udpLookup {
 			it := item{Kind: kResp, Fam: fam, Msg: genMsg(rt, fam, ag, true, rkValid)}
 			it.Msg.TC = true
 			crossClean(&it, ag)
+			compressOwners(&it.Msg)
 			l.Datagrams = append(l.Datagrams, udpDatagram{It: it, GapMs: 1})
 		} else {
 			for _, f := range missing {
-				l.Datagrams = append(l.Datagrams, udpDatagram{It: item{Kind: kResp, Fam: f, Msg: genUDPMsg(rt, f, ag, false)}, GapMs: 1})
+				it := item{Kind: kResp, Fam: f, Msg: genUDPMsg(rt, f, ag, false)}
+				compressOwners(&it.Msg)
+				l.Datagrams = append(l.Datagrams, udpDatagram{It: it, GapMs: 1})
 			}
 		}
 	}
@@ -462,7 +485,9 @@ func evalUDPVariants(name string, l *udpLookup, useTCP bool, obs []*connObs, t0,
 		} else if evl.done() {
 			x.entry = buildEntry(evl.acc, t0, t1, left...)
 			for _, it := range evl.acc {
-				x.big = max(x.big, it.Msg.PadTo)
+				if it.Msg.PadTo > 0 {
+					x.big = max(x.big, len(wire(it, name, map[int]uint16{4: 4, 6: 6})))
+				}
 			}
 		}
 		out = append(out, x)
@@ -471,16 +496,22 @@ func evalUDPVariants(name string, l *udpLookup, useTCP bool, obs []*connObs, t0,
 }
 
 var recUDP = ev.New("C17", "udp-loopback",
-	"rapid, real time: resolver with direct UDP client towards a kernel socket on 127.0.0.1 plus (usually) the in-memory TCP upstream as fallback; per lookup 0..6 datagrams in a "+
+	"rapid, real time: name looked up as in the histories (everyday, or total length 1..253 with 63-byte / 1-byte / mixed labels); resolver with direct UDP client towards a kernel socket on 127.0.0.1 plus (usually) the in-memory TCP upstream as fallback; per lookup 0..6 datagrams in a "+
 		"drawn order: acceptable answers from the server, spoofed answers with the right IDs from a foreign port or a foreign IP (127.0.0.2, same port) carrying poison addresses, "+
 		"truncated answers (then the TCP side usually carries a large answer padded to 512..65535 bytes), foreign-ID/garbage/QR=0/RA=0/short/cut/empty datagrams from the server; optionally the server answers only a retransmitted query; then a second lookup of the "+
 		"same name (cache hit expected for TTL>=3600, fresh answers expected after a failure). Non-trivial: a spoofed datagram arrives before the lookup is complete AND (TCP fallback "+
 		"happened or an unusable server datagram was sent); distinct key = datagram class string + outcome").
-	Require("failure-is-ErrLookup", "tc-udp-then-tcp-answer>1234B", "spoofed-before-complete", "tcp-fallback", "truncated-udp", "udp-complete", "second-lookup-cache-hit", "second-lookup-after-failure", "foreign-ip", "foreign-port")
+	Require("name-length>=243", "failure-is-ErrLookup", "tc-udp-then-tcp-answer>1234B", "spoofed-before-complete", "tcp-fallback", "truncated-udp", "udp-complete", "second-lookup-cache-hit", "second-lookup-after-failure", "foreign-ip", "foreign-port")
 
 func runUDPPlan(t *testing.T, p *udpPlan) (viol string, labels map[string]bool, key string) {
 	labels = map[string]bool{}
-	const name = "udp.verif.test"
+	name := "udp.verif.test"
+	if p.Name != "" {
+		name = p.Name
+	}
+	for _, l := range nameLabels(name) {
+		labels[l] = true
+	}
 	srv, err := newUDPServer(name, p.L[:])
 	if err != nil {
 		return harnessTrouble + "cannot bind loopback sockets: " + err.Error(), labels, ""
@@ -542,6 +573,7 @@ func runUDPPlan(t *testing.T, p *udpPlan) (viol string, labels map[string]bool, 
 		srv.mu.Lock()
 		reached := len(srv.ports)
 		badQ := srv.badQ
+		oversize := srv.oversize
 		var nq map[int]int
 		if reached > 0 {
 			nq = srv.queries[reached-1]
@@ -551,18 +583,21 @@ func runUDPPlan(t *testing.T, p *udpPlan) (viol string, labels map[string]bool, 
 			return fmt.Sprintf("lookup=%d useTCP=%v datagrams=[%s] tcp=%v dur=%v out{%s} lookupsSeenByUDPUpstream=%d queries=%v tcpConns=%d",
 				k, p.UseTCP, keyb.String(), describeScript(&l.TCP), t1.Sub(t0), out, reached, nq, len(obs))
 		}
+		if l.MustSucceed && out.isFailure() {
+			return "SIG=C17/udp-unanswered-or-unusable-but-healthy-tcp-retry-failed " + ctxs(), labels, ""
+		}
+		if oversize > 0 {
+			return fmt.Sprintf("%sgenerated datagram of %d bytes", harnessTrouble, oversize), labels, ""
+		}
+		if badQ != "" {
+			return "SIG=C17/udp-query-wrong " + badQ + " " + ctxs(), labels, ""
+		}
 		// Bounded liveness: every generated (non-silent) scenario ends either with usable answers
 		// to both queries or with a truncated answer to an open query, which is documented to
 		// trigger the TCP retry immediately; observed durations are milliseconds (2 s when the
 		// upstream waits for a retransmission), the UDP time limit is 20 s.
 		if !l.Silent && !l.OpenEnded && t1.Sub(t0) > promptBound {
 			return sigSlow + " " + ctxs(), labels, ""
-		}
-		if l.MustSucceed && out.isFailure() {
-			return "SIG=C17/udp-unanswered-or-unusable-but-healthy-tcp-retry-failed " + ctxs(), labels, ""
-		}
-		if badQ != "" {
-			return "SIG=C17/udp-query-wrong " + badQ + " " + ctxs(), labels, ""
 		}
 		if out.hasPoison() {
 			return "SIG=C17/foreign-or-malformed-message-address-in-answer " + ctxs(), labels, ""
@@ -701,10 +736,14 @@ func TestResolverUDP(t *testing.T) {
 		}
 	}()
 	rapid.Check(t, func(rt *rapid.T) {
-		p := &udpPlan{UseTCP: rapid.IntRange(0, 5).Draw(rt, "useTCP") != 0}
+		p := &udpPlan{UseTCP: rapid.IntRange(0, 5).Draw(rt, "useTCP") != 0, Name: genName(rt, 20)}
 		p.L[0] = genUDPLookup(rt, &addrGen{scope: 1})
 		p.L[1] = goodUDPLookup(&addrGen{scope: 2})
+		j := writeJournal("udp", p)
 		viol, labels, key := runUDPPlan(t, p)
+		if j != "" {
+			os.Remove(j)
+		}
 		if strings.HasPrefix(viol, sigSlow) {
 			// a missed real-time bound is retried once before it counts
 			recUDP.Label("slow-retried", 1)
@@ -759,6 +798,12 @@ var silenceScens = []silenceScen{
 func runSilence(t *testing.T, sc silenceScen) (viol string, elapsed time.Duration) {
 	ag := &addrGen{scope: 9}
 	p := &udpPlan{UseTCP: sc.useTCP}
+	switch sc.name { // the longest legal names, too
+	case "all-silent-tcp-fallback":
+		p.Name = makeName(253, 0, 17, 's')
+	case "all-silent-tcp-fallback-64k":
+		p.Name = makeName(253, 1, 18, 't')
+	}
 	l := udpLookup{Silent: !sc.answerA, OpenEnded: sc.answerA, MustSucceed: sc.useTCP}
 	if sc.answerA {
 		l.Datagrams = []udpDatagram{{It: item{Kind: kResp, Fam: 4, Msg: wmsg{QR: true, RA: true, RD: true, Answers: []rr{{Type: tA, TTL: 3600, Addr: ag.v4(false)}}}}}}
@@ -805,5 +850,24 @@ func TestResolverUDPSilence(t *testing.T) {
 				t.Fatalf("%s", viol)
 			}
 		})
+	}
+}
+
+// TestReplayUDP re-runs a journaled UDP plan ($VERIF_REPLAY) outside rapid.
+func TestReplayUDP(t *testing.T) {
+	f := os.Getenv("VERIF_REPLAY")
+	if f == "" || !strings.Contains(filepath.Base(f), "journal-udp") {
+		t.Skip("no UDP journal to replay")
+	}
+	b, err := os.ReadFile(f)
+	if err != nil {
+		t.Fatal(err)
+	}
+	var plan udpPlan
+	if err := json.Unmarshal(b, &plan); err != nil {
+		t.Fatal(err)
+	}
+	if viol, _, _ := runUDPPlan(t, &plan); viol != "" && !strings.HasPrefix(viol, harnessTrouble) {
+		t.Fatal(viol)
 	}
 }
